@@ -156,6 +156,80 @@ func slicePoolProbe(o *Out, prop string) {
 			}
 		}
 	}
+	// destinations that hold something and have room to spare: what a slice decoded EARLIER through the same decoder
+	// holds is another object graph (it must stay as it is, and nothing of it may be reachable from the new result), and
+	// the elements between the destination's length and its capacity are the destination's own (zero from make)
+	for _, fam := range spFamilies {
+		for r := 0; r < rounds/4+2; r++ {
+			stream := o.rng.Intn(2) == 0
+			mk := func(lib string, doc string, dst reflect.Value) (string, bool) {
+				var err error
+				perr := safeCall(func() error {
+					switch {
+					case lib == "go" && !stream:
+						err = gojson.Unmarshal([]byte(doc), dst.Interface())
+					case lib == "go":
+						err = gojson.NewDecoder(strings.NewReader(doc)).Decode(dst.Interface())
+					case !stream:
+						err = stdjson.Unmarshal([]byte(doc), dst.Interface())
+					default:
+						err = stdjson.NewDecoder(strings.NewReader(doc)).Decode(dst.Interface())
+					}
+					return nil
+				})
+				if perr != nil {
+					return "panic: " + perr.Error(), false
+				}
+				if err != nil {
+					return "E", false
+				}
+				b, _ := stdjson.Marshal(dst.Elem().Interface())
+				return string(b), true
+			}
+			elems := func(from []string, n int) string {
+				e := make([]string, n)
+				for i := range e {
+					e[i] = from[o.rng.Intn(len(from))]
+				}
+				return "[" + strings.Join(e, ",") + "]"
+			}
+			// an earlier, longer result that the caller keeps
+			docA := elems(fam.full, 4+o.rng.Intn(3))
+			a := reflect.New(fam.typ)
+			snapA, okA := mk("go", docA, a)
+			if !okA {
+				continue
+			}
+			// the destination: length l, capacity c, its first l elements decoded from full element texts
+			l := o.rng.Intn(3)
+			c := l + 1 + o.rng.Intn(4)
+			docInit := elems(fam.full, l)
+			docB := elems(append(append([]string{}, fam.light...), fam.full[0]), l+1+o.rng.Intn(c-l+1))
+			build := func() reflect.Value {
+				d := reflect.New(fam.typ)
+				stdjson.Unmarshal([]byte(docInit), d.Interface())
+				grown := reflect.MakeSlice(fam.typ, l, c)
+				reflect.Copy(grown, d.Elem())
+				d.Elem().Set(grown)
+				return d
+			}
+			bGo, bStd := build(), build()
+			o.current(map[string]string{"property": prop, "what": "slice pool, populated destination with spare capacity", "type": fam.name, "earlier": docA, "init": docInit, "len_cap": fmt.Sprintf("%d/%d", l, c), "doc": docB})
+			got, _ := mk("go", docB, bGo)
+			want, _ := mk("std", docB, bStd)
+			o.count("slice_pool_populated_destinations", 1)
+			det := map[string]string{"type": fam.name, "stream": fmt.Sprint(stream), "earlier_document": docA, "destination_before": docInit, "len_cap": fmt.Sprintf("%d/%d", l, c), "document": docB}
+			if now, _ := stdjson.Marshal(a.Elem().Interface()); string(now) != snapA {
+				det["earlier_result_was"], det["earlier_result_now"] = clip(snapA), clip(string(now))
+				o.violation(prop, "decoding into one slice changed a slice decoded earlier through the same decoder (another object graph)", det)
+				continue
+			}
+			if got != want {
+				det["got"], det["want"] = clip(got), clip(want)
+				o.violation(prop, "a slice decoded into a destination with elements and spare capacity differs from encoding/json", det)
+			}
+		}
+	}
 	// []int through the model
 	n := 400
 	if thorough {
